@@ -226,6 +226,16 @@ func buildProgramWithStructs(p *Program, pluginBin, out string, kl, km int, stru
 		p00Support(filepath.Join(out, pkg))
 	} else {
 		writeFile(filepath.Join(out, pkg, "support_time.go"), []byte(strings.Replace(string(sup), "package PKG", "package "+pkg, 1)))
+		// DateType / DateValue: a second time-like Terraform type for schema_types overrides (the TimeType part
+		// of the support file under other names), and a constructor that returns the plain TimeType
+		if i := strings.Index(string(sup), "// DurationType"); i > 0 {
+			date := string(sup)[:i]
+			for _, r := range [][2]string{{"TimeType", "DateType"}, {"TimeValue", "DateValue"}, {"UseRFC3339Time", "UseRFC3339Date"}, {"timeThreshold", "dateThreshold"}, {"package PKG", "package " + pkg}} {
+				date = strings.ReplaceAll(date, r[0], r[1])
+			}
+			date += "\n// UsePlainTime: a type constructor that returns the plain TimeType\nfunc UsePlainTime() TimeType { return TimeType{} }\n"
+			writeFile(filepath.Join(out, pkg, "support_date.go"), []byte(date))
+		}
 	}
 	if p.RepoSupport {
 	} else if p.Support != "" {
